@@ -59,6 +59,8 @@ def _ev(e: str, **kw) -> dict:
 
 
 ENOENT = -10001         # marker: the executable does not exist (distinct from a tool killed by a signal, rc < 0)
+EACCES = -10002         # marker: the executable is there but may not be executed (PermissionError at launch)
+ENOEXEC = -10003        # marker: the kernel cannot run the file (OSError "Exec format error" at launch)
 
 
 def run_case(case: dict, workdir: Path) -> list[dict]:
@@ -88,7 +90,7 @@ def run_case(case: dict, workdir: Path) -> list[dict]:
         k = kind(argv)
         rc = 0
         if k != "unknown" and not case["pio"]:
-            rc = ENOENT
+            rc = int(case.get("absent_rc", ENOENT))      # the way the absent tool fails to start
         elif k == fault:
             rc = int(case.get("failrc", 1))             # exit status of the failing tool (negative: killed by a signal)
         where = "none" if cwd is None else ("project" if os.path.abspath(str(cwd)) == str(proj) else "other")
@@ -104,6 +106,10 @@ def run_case(case: dict, workdir: Path) -> list[dict]:
             rc = answer(argv, cwd)
             if rc == ENOENT:
                 raise FileNotFoundError(2, "No such file or directory", argv[0])
+            if rc == EACCES:
+                raise PermissionError(13, "Permission denied", argv[0])
+            if rc == ENOEXEC:
+                raise OSError(8, "Exec format error", argv[0])
             self.args, self.returncode, self.pid = args, rc, 4242
             self.stdin = self.stdout = self.stderr = None
 
@@ -129,7 +135,7 @@ def run_case(case: dict, workdir: Path) -> list[dict]:
 
     def fake_system(cmd):
         rc = answer(shlex.split(cmd), os.getcwd())
-        return (127 if rc == ENOENT else (rc if rc >= 0 else 128 - rc)) << 8
+        return (127 if rc == ENOENT else 126 if rc in (EACCES, ENOEXEC) else (rc if rc >= 0 else 128 - rc)) << 8
 
     def fake_which(name, *a, **kw):
         base = os.path.basename(str(name))
